@@ -50,6 +50,7 @@ import (
 	"os"
 	"slices"
 	"sync"
+	"sync/atomic"
 	"time"
 
 	"github.com/ovh/kmip-go"
@@ -363,8 +364,11 @@ func WithDialerUnsafe(dialer DialerFunc) Option {
 // processing. It provides thread-safe access to the underlying connection and
 // configuration options such as supported protocol versions and custom dialers.
 type Client struct {
-	lock              *sync.Mutex
-	conn              *conn
+	lock *sync.Mutex
+	// conn is replaced under lock by reconnect, and read without the lock by Close
+	conn atomic.Pointer[conn]
+	// closed is set by Close: a closed client fails every call and never reconnects
+	closed            atomic.Bool
 	version           *kmip.ProtocolVersion
 	supportedVersions []kmip.ProtocolVersion
 	dialer            DialerFunc
@@ -426,13 +430,13 @@ func DialContext(ctx context.Context, addr string, options ...Option) (*Client, 
 
 	c := &Client{
 		lock:              new(sync.Mutex),
-		conn:              newConn(stream),
 		dialer:            dialer,
 		supportedVersions: opts.supportedVersions,
 		version:           opts.enforceVersion,
 		middlewares:       opts.middlewares,
 		addr:              addr,
 	}
+	c.conn.Store(newConn(stream))
 
 	// Negotiate protocol version
 	if err := c.negotiateVersion(ctx); err != nil {
@@ -460,15 +464,16 @@ func (c *Client) CloneCtx(ctx context.Context) (*Client, error) {
 		return nil, err
 	}
 	version := *c.version
-	return &Client{
+	clone := &Client{
 		lock:              new(sync.Mutex),
 		version:           &version,
 		supportedVersions: slices.Clone(c.supportedVersions),
 		dialer:            c.dialer,
 		middlewares:       slices.Clone(c.middlewares),
-		conn:              newConn(stream),
 		addr:              c.addr,
-	}, nil
+	}
+	clone.conn.Store(newConn(stream))
+	return clone, nil
 }
 
 // Version returns the KMIP protocol version used by the client.
@@ -485,22 +490,32 @@ func (c *Client) Addr() string {
 // It returns an error if the connection could not be closed.
 func (c *Client) Close() error {
 	vp("cx.close", c)
-	return c.conn.Close()
+	c.closed.Store(true)
+	if cn := c.conn.Load(); cn != nil {
+		return cn.Close()
+	}
+	return nil
 }
 
 func (c *Client) reconnect(ctx context.Context) error {
 	// fmt.Println("Reconnecting")
 	vp("rt.reconnect", c)
-	if c.conn != nil {
-		_ = c.conn.Close()
-		c.conn = nil
+	if cn := c.conn.Load(); cn != nil {
+		_ = cn.Close()
+		c.conn.Store(nil)
 	}
 	vp("rt.dial", c)
 	stream, err := c.dialer(ctx)
 	if err != nil {
 		return err
 	}
-	c.conn = newConn(stream)
+	cn := newConn(stream)
+	c.conn.Store(cn)
+	if c.closed.Load() {
+		// The client has been closed while reconnecting
+		_ = cn.Close()
+		return net.ErrClosed
+	}
 	return nil
 }
 
@@ -514,7 +529,10 @@ func (c *Client) doRountrip(ctx context.Context, msg *kmip.RequestMessage) (*kmi
 	vp("rt.lock", c)
 	c.lock.Lock()
 	defer c.lock.Unlock()
-	if c.conn == nil {
+	if c.closed.Load() {
+		return nil, net.ErrClosed
+	}
+	if cn := c.conn.Load(); cn == nil {
 		if err := c.reconnect(ctx); err != nil {
 			return nil, err
 		}
@@ -523,7 +541,7 @@ func (c *Client) doRountrip(ctx context.Context, msg *kmip.RequestMessage) (*kmi
 	//TODO: Better reconnection loop. Do we really need a retry counter here ?
 	retry := 3
 	for {
-		resp, err := c.conn.roundtrip(ctx, msg)
+		resp, err := c.conn.Load().roundtrip(ctx, msg)
 		if err == nil {
 			return resp, nil
 		}
